@@ -7,6 +7,9 @@ sys.path.insert(0, os.path.dirname(os.path.dirname(os.path.abspath(__file__))))
 from vf import evidence  # noqa: E402
 
 PLAN = {
+    "C01": ["serverconn", "router"],
+    "C04": ["serverconn", "chain"],
+    "C05": ["c05", "chain"],
     "C06": ["tlspump", "live"],
     "C07": ["serverconn", "tlspump"],
     "C15": ["serverconn", "tlspump", "live"],
